@@ -147,6 +147,50 @@ def _split(E: Engine, e: Event, writes, raises, callers: dict, depth: int = 0) -
     return list(merged.items())
 
 
+_DOM_CACHE: dict = {}
+
+
+def _prevalidated(E: Engine, fl: FunctionFlow, na: Node, nb: Node, eb: Event) -> set:
+    """Short names of side-effect-free project functions (validators) that were called, with an argument sharing
+    provenance with the later event's arguments, at a node that dominates the mutation ``na``."""
+    key = id(fl)
+    if key not in _DOM_CACHE:
+        _DOM_CACHE[key] = fl.dominators()
+    dom = _DOM_CACHE[key].get(na.id, set())
+    later_roots: set = set()
+    if isinstance(eb.node, ast.Call):
+        for a in list(eb.node.args) + [k.value for k in eb.node.keywords]:
+            later_roots |= {x.id for x in ast.walk(a) if isinstance(x, ast.Name)}
+    out = set()
+    for node, _i, e in fl.all_events():
+        if node.id not in dom or node.id == na.id or e.kind != "call" or not isinstance(e.node, ast.Call):
+            continue
+        roots = set()
+        for a in list(e.node.args) + [k.value for k in e.node.keywords]:
+            roots |= {x.id for x in ast.walk(a) if isinstance(x, ast.Name)}
+        roots -= {"self"}
+        if not (roots & later_roots):
+            continue
+        for cal, _m in e.callees:
+            w, r = E.S.of(cal)
+            if not E.state_writes(w) and r:
+                out |= {x.fn for x in r}
+    return out
+
+
+def _raise_owner(E: Engine, fn_short: str, callers_by_short: dict, depth: int = 0) -> str:
+    """A raise inside a private helper with a single call site is attributed to that caller."""
+    if depth > 3:
+        return fn_short
+    last = fn_short.split(".")[-1]
+    if not last.startswith("_") or last.startswith("__"):
+        return fn_short
+    cs = callers_by_short.get(fn_short)
+    if cs is None or len(cs) != 1:
+        return fn_short
+    return _raise_owner(E, next(iter(cs)), callers_by_short, depth + 1)
+
+
 def order_pairs(E: Engine, callables: list[Callable_]) -> "OrderedDict[tuple[str, str, str], dict]":
     callers = _callers_index(E, callables)
     pairs: "OrderedDict[tuple[str, str, str], dict]" = OrderedDict()
@@ -183,6 +227,10 @@ def order_pairs(E: Engine, callables: list[Callable_]) -> "OrderedDict[tuple[str
                     if restored and in_try and all((y.owner, y.field) in rest_fields for y in wa):
                         continue
                     live_raises.add(x)
+                # a validation that already ran -- on an argument of the same provenance -- at a point dominating the
+                # mutation cannot reject again: the same function raising later is discharged
+                pre = _prevalidated(E, fl, na, nb, eb)
+                live_raises = {x for x in live_raises if x.fn not in pre}
                 if not live_raises:
                     continue
                 if _caller_compensated(E, c, {(y.owner, y.field) for y in wa}, {(x.fn, x.exc) for x in live_raises}, callers):
@@ -213,6 +261,16 @@ def run(E: Engine, rep: Report, tier: str) -> dict:
         infeasible[(row["function"], row.get("after", "*"), row["later"])] = row["reason"]
     pairs = order_pairs(E, callables)
     used = set()
+    callers_by_short: dict = {}
+    for c_ in callables:
+        for _n, _i, e_ in E.flow(c_).all_events():
+            for cal_, _m in e_.callees:
+                if not cal_.binding and not cal_.fn.decorators:
+                    callers_by_short.setdefault(cal_.fn.short, set()).add(c_.fn.short)
+    try:
+        pair_raises = load_table("c09_pair_raises.json")["pairs"]
+    except Exception:
+        pair_raises = {}
     for (f, a, b), d in pairs.items():
         key = f"{f}|{a}|{b}"
         reason = infeasible.get((f, a, b))
@@ -224,6 +282,14 @@ def run(E: Engine, rep: Report, tier: str) -> dict:
             f"in {f}: after [{a}] (writes {sorted(d['writes'])}) the later event [{b}] can let an explicit raise escape: "
             f"{sorted(d['raises'])[:12]}{' ...' if len(d['raises']) > 12 else ''}"
         )
+        # the triage of a pair (infeasible / known) was made for the ways it could fail on the day it was made:
+        # a raise that was not there then (tables/c09_pair_raises.json) is a new way to fail after the mutation
+        recorded = pair_raises.get(key)
+        now = {f"{_raise_owner(E, fn, callers_by_short)}:{exc}" for fn, exc in d["raises"]}
+        fresh = sorted(now - set(recorded)) if recorded is not None else []
+        if fresh and (reason is not None or rep.is_known("ORDER", key)):
+            rep.violation("ORDER", key + "|new-raise:" + ",".join(fresh)[:120], f"in {f}: after [{a}] (writes {sorted(d['writes'])}) the later event [{b}] can now also let {fresh} escape -- this raise was not possible when the pair was triaged ("
+                          + ("listed as infeasible: " + reason[:80] if reason is not None else "listed as a known finding") + "), so a validation that used to precede the mutation has moved behind it", d["where"], raises=sorted(d["raises"]), writes=sorted(d["writes"]))
         if reason is not None:
             used.add(k_used)
             rep.excepted("ORDER", key, reason, d["where"], raises=sorted(d["raises"]))
@@ -239,8 +305,23 @@ def run(E: Engine, rep: Report, tier: str) -> dict:
         if E.state_writes(w):
             n_clean += 1
             rep.ok("ORDER", f"{c.fn.short}|clean", "writes sequence state; no raising event reachable after the first write", E.where(c.fn), nontrivial=True)
+    # explicit precedence facts behind the triage (tables/c09_precedence.json)
+    from .. import sym as _sym
+
+    for row in load_table("c09_precedence.json")["rows"]:
+        f_ = E.fn(row["function"])
+        Sf = _sym.sym_of(E.P, f_, False)
+        own = [l for l in Sf.log if l.fn == f_.short and l.kind == "call" and l.target is not None and l.target[0] == "attr"]
+        firsts = [l for l in own if l.target[2] == row["first"] and any(_sym.contains(a, ("name", row["arg"])) for a in l.value[2])]
+        thens = [l for l in own if l.target[2] == row["then"]]
+        if not thens:
+            rep.error(f"precedence row {row['function']}: `{row['then']}` is no longer called")
+            continue
+        ok = bool(firsts) and all(any(own.index(a) < own.index(t) for a in firsts) for t in thens)
+        rep.check(ok, "ORDER", f"{f_.short}|{row['first']}-before-{row['then']}", row["why"], f"{f_.short} no longer calls {row['first']}({row['arg']}) before {row['then']}: {row['why']}", E.where(f_))
     stale = [k for k in infeasible if k not in used]
     rep.notes["stale_infeasible_rows"] = ["|".join(k) for k in stale]
+    rep.notes["pair_raises_now"] = {f"{f}|{a}|{b}": sorted({f"{_raise_owner(E, fn, callers_by_short)}:{exc}" for fn, exc in d["raises"]}) for (f, a, b), d in pairs.items()}
     rep.floor("ORDER", 25)
 
     # ------------------------------------------------------------- RECORD
@@ -334,6 +415,7 @@ def run(E: Engine, rep: Report, tier: str) -> dict:
         "unresolved_calls": unres,
         "unresolved_call_count": sum(len(v) for v in unres.values()),
         "stale_infeasible_rows": rep.notes["stale_infeasible_rows"],
+        "pair_raises_now": rep.notes["pair_raises_now"],
         "pairs": [{"key": "|".join(k), "writes": sorted(d["writes"]), "raises": sorted(d["raises"])[:20]} for k, d in pairs.items()],
     }
 
